@@ -1,7 +1,7 @@
 """C03 — channel protocol property (DESIGN.md §4 C03); shared machinery in netprops.py."""
 from __future__ import annotations
 
-from . import common, netprops
+from . import common, netfine, netprops
 
 PROP = "C03"
 
@@ -13,6 +13,8 @@ def run(ctx):
                 "(c) scenarios: ending by exec end / remote raise / local close / reference drop with 1-3 blocked receivers and a waitclose caller, "
                 "sibling conversation active: items before the close all received, EOF repeated for every receiver, no item after waitclose")
     netprops.op_level(ctx, res, PROP, ctx.budget(400, 4000, 600))
+    # two-step receive (get … put the ENDMARKER back) against Model/NetFine.lean, guarded and unguarded histories
+    netfine.fine_level(ctx, res, PROP, ctx.budget(80, 2500, 300))
     netprops.run_scenarios(ctx, res, netprops.scenario_close, ctx.budget(200, 8000, 600), "close")
     return res
 
